@@ -449,6 +449,7 @@ pub struct CaseInfo {
     pub max_events_in_call: usize,
     pub follow_ups: usize,
     pub used_retaining_exemption: u64,
+    pub used_legacy_exemption: u64,
     pub spurious_polls: u64,
     pub id_reused: bool,
     pub out_of_order: bool,
@@ -473,6 +474,8 @@ pub struct CaseCfg {
     pub release_checks: bool,
     /// signatures of known findings that are tolerated (and counted) instead of reported
     pub tolerate: Vec<String>,
+    /// tolerate (and count) the known finding that the legacy executor keeps a task whose request was dropped
+    pub tolerate_legacy_kept: bool,
 }
 
 /// Why a case failed: every clause that failed in the first failing call, and what that call was.
@@ -524,6 +527,7 @@ pub fn run_case(u: &Universe, cfg: &CaseCfg) -> Result<CaseInfo, CaseFail> {
     let reference = RefRt::new(u, legacy).with_legacy_mask(mask);
     let _disposer = crate::refrt::Disposer(reference.clone());
     reference.world().tolerate_retaining = cfg.tolerate_retaining;
+    reference.world().tolerate_legacy_kept = cfg.tolerate_legacy_kept;
     let mut host = Host::new(cfg.host, uni.clone());
     let mut info = CaseInfo::default();
     let mut l1 = crate::l1::L1::default();
@@ -854,6 +858,7 @@ pub fn run_case(u: &Universe, cfg: &CaseCfg) -> Result<CaseInfo, CaseFail> {
     {
         let w = reference.world();
         info.used_retaining_exemption = w.used_retaining_exemption;
+        info.used_legacy_exemption = w.used_legacy_exemption;
         info.spurious_polls = w.spurious_polls;
     }
     info.id_reused = host.id_reused_after_release;
